@@ -4,6 +4,17 @@ import json, os
 HERE = os.path.dirname(os.path.dirname(os.path.abspath(__file__)))
 
 CHECKS = {
+ 'C01': dict(engine='K', technique='bounded model checking: find_kmers/KmerMatch/accumulate_kmers/accumulators/calc_signature + kmers.pyx translated to one SMT formula per (k, prefix, lengths, input type, accumulator); every byte symbolic',
+             text='For every (k, prefix) of a small grid and every sequence (or pair of sequences) up to the length bound over all 256 byte values, the set the '
+                  'current code accumulates equals the set defined by the property text (soundness + completeness), the result is sorted, duplicate-free and of the '
+                  'right dtype, and no exception escapes; for all four input types and both accumulators.  Counterexamples are replayed on the real code.',
+             note='Trusted: z3/cvc5, kbmc translator + library models (bytes.find/upper/slicing, numpy set-as-array abstraction), specs/kmers_spec.py; kernel for every k<=32 is C07.',
+             ref='3/C01'),
+ 'C06': dict(engine='K', technique='bounded model checking: two symbolic executions of calc_signature per obligation (original vs reverse-complemented / reordered / case-flipped input), equality of the accumulated sets decided by SMT; compression choice over a symbolic file header',
+             text='Strand symmetry per contig, contig-order independence, signature = union of per-contig signatures (no k-mer across a boundary) and case '
+                  'invariance hold for every byte string within the bound; gzip is chosen iff the header is 1f 8b regardless of the name.',
+             note='Trusted: as C01; open/gzip/TextIOWrapper replaced by tagging stubs.  FASTA parsing, line endings and the gzip codec are outside (library code behind I/O).',
+             ref='3/C06'),
  'C02': dict(engine='K', technique='bounded model checking: metric.pyx + gambit.metric translated to SMT (QF_BV merge stage per dtype pair and length bound, QF_FP float stage over all N,M,u < 2^24), z3 + cvc5',
              text='For every pair of sorted duplicate-free arrays up to the length bound, in every accepted dtype pair, the merge loop of the current '
                   'metric.pyx ends with (N,M,u) = (|a|,|b|,|a or b|) with all reads in bounds; for every such triple below 2^24 the returned float32 '
